@@ -81,6 +81,14 @@ def execute(mod, seed=None, tape=None, labels=False, run_cap=60, idx=None):
     if tape is None and idx is not None and hasattr(mod, "forced_prefix"):
         forced = mod.forced_prefix(idx)
     ch = Chooser(seed=seed, tape=tape, record_labels=labels, forced=forced)
+    # hermetic $HOME per run: code under simulation that falls back to its default store
+    # (~/.nauyaca/tofu.db) must neither see nor leave state outside the run
+    import shutil
+    from .world import scratch_root
+    home = os.path.join(scratch_root(), "home")
+    shutil.rmtree(home, ignore_errors=True)
+    os.makedirs(home)
+    os.environ["HOME"] = home
     signal.signal(signal.SIGALRM, _alarm)
     signal.alarm(run_cap)
     try:
